@@ -248,6 +248,9 @@ func runCase(r *vf.Run, c caseSpec, dir string) {
 	if r.RaceBuild {
 		build = "race"
 	}
+	if os.Getenv("VERIF_C19_TIMING") != "" {
+		r.Logf("BEGIN %s", c.desc())
+	}
 	img, err := buildImageSrc(c)
 	if err != nil {
 		r.Inconclusive("source image could not be built: " + errClass(err))
